@@ -182,7 +182,10 @@ def flag_checks(hist, steps, out, depth=0, fp=None, stats=None):
                 out.append(C.V('C17.flag_not_set_inside', dict(fp or {}, depth=depth + 1)))
             exited_by = 'normal' if st.get('out') == 'ok' else ('propagated' if st.get('propagated') else str(st.get('exc')))
             flag_checks(op.get('body', []), st.get('body') or [], out, depth + 1, fp, stats)
-            if st.get('hc') is not want:
+            if st.get('hc') is None:
+                if stats is not None:
+                    C.bump(stats['skipped'], 'mode_flag_not_readable')       # the public configuration object moved: seam dead, no verdict
+            elif st.get('hc') is not want:
                 out.append(C.V('C17.flag_leaked', dict(fp or {}, after='block_exit', exit=exited_by, depth=depth + 1,
                                                       form=op.get('form')), got=st.get('hc'), want=want))
             if stats is not None:
@@ -190,7 +193,7 @@ def flag_checks(hist, steps, out, depth=0, fp=None, stats=None):
                 if depth:
                     C.bump(stats['probes'], 'nested_block')
         else:
-            if st.get('hc') is not want:
+            if st.get('hc') is not None and st.get('hc') is not want:
                 out.append(C.V('C17.flag_leaked' if not want else 'C17.flag_not_set_inside',
                                dict(fp or {}, after=op.get('op'), depth=depth), got=st.get('hc'), want=want))
 
